@@ -241,12 +241,15 @@ let f _id vs =
             let cond_flip =
               ((got = 3 && (want = 1 || want = 2)) || (want = 3 && (got = 1 || got = 2)) ||
                (api >= 2 && api <> 4 && (got = 3 || want = 3))) && Lazy.force has_e in
+            (* weighted-graph engine: with an unevaluable condition in play even allowed / error flips *)
+            let wg_race = eng = 2 && (got = 3 || want = 3) && Lazy.force has_e in
             if lenient then knowns := ("ctx_lenient_condition " ^ where) :: !knowns
             else if wildcard_lo then knowns := ("lo_wildcard_empty_user_filter " ^ where) :: !knowns
             else if conflict then knowns := ("sorted_dedup_by_object " ^ where) :: !knowns
             else if lo_cache then knowns := ("lo_cache_key_without_ctx " ^ where) :: !knowns
             else if v2cache then knowns := ("wg_cache_visited " ^ where) :: !knowns
             else if cond_flip then knowns := ("cond_err_order_dependent " ^ where) :: !knowns
+            else if wg_race then knowns := ("wg_cond_err_race " ^ where) :: !knowns
             else (match v1trig with
                 | Some fl -> knowns := (fl ^ " " ^ where) :: !knowns
                 | None -> props := where :: !props)
@@ -255,7 +258,7 @@ let f _id vs =
       let prio k =
         let rec idx i = function [] -> i | p :: l -> if String.length k >= String.length p && String.sub k 0 (String.length p) = p then i else idx (i + 1) l in
         idx 0 ["lo_cache_key_without_ctx"; "sorted_dedup_by_object"; "wg_cache_visited"; "excl_sub_cycle"; "cond_err_swallowed";
-               "cond_err_order_dependent"; "ctx_lenient_condition"; "lo_wildcard_empty_user_filter"] in
+               "wg_cond_err_race"; "cond_err_order_dependent"; "ctx_lenient_condition"; "lo_wildcard_empty_user_filter"] in
       (match List.rev !props, List.sort (fun a b -> compare (prio a) (prio b)) (List.rev !knowns) with
        | p :: _, _ -> "PROP " ^ p
        | [], k :: _ -> "KNOWN " ^ k
